@@ -78,7 +78,10 @@ def not_types(*labels):
 
 # ---------------------------------------------------------------- contracts
 class Case:
-    def __init__(self, name, when=None, returns=None, raises=None, post=None, effects=None):
+    def __init__(self, name, when=None, returns=None, raises=None, post=None, effects=None,
+                 may_raise=None, havoc=None):
+        self.may_raise = may_raise  # exception classes the function may raise instead of returning (relational cases)
+        self.havoc = havoc          # ctx -> fresh result value satisfying `post` (used at call sites for relational cases)
         self.name = name
         self.when = when          # ctx -> bool/term; None = always
         self.returns = returns    # ctx -> expected value  (function of the arguments)
@@ -159,6 +162,18 @@ class Contract:
         if chosen.raises is not None:
             cls = chosen.raises if isinstance(chosen.raises, type) else chosen.raises[0]
             raise Raised(cls, ('<from contract %s>' % self.name,))
+        if chosen.may_raise:
+            for k in (chosen.may_raise if isinstance(chosen.may_raise, tuple) else (chosen.may_raise,)):
+                if st.branch(st.fresh_bool('callee_raises_%s' % k.__name__), 'contract:%s:%s:raises-%s' % (self.name, chosen.name, k.__name__)):
+                    raise Raised(k, ('<from contract %s>' % self.name,))
+        if chosen.havoc is not None:
+            res = chosen.havoc(ctx)
+            if chosen.post is not None:
+                p = chosen.post(ctx, res)
+                if isinstance(p, tuple):
+                    p = p[0]
+                st.assume(B(p) if not isinstance(p, bool) else p)
+            return res
         if chosen.returns is not None:
             return chosen.returns(ctx)
         if chosen.post is not None and chosen.effects is None:
@@ -320,7 +335,7 @@ class Result:
 def scope(st):
     st.solver.push()
     snap = (len(st.pc), dict(st.refine), dict(st.pack_cache), set(st.facts_done), dict(st.str_lits),
-            len(st.obligations))
+            len(st.obligations), len(st.decisions), list(st.prefix), list(st.pending))
     try:
         yield
     finally:
@@ -330,6 +345,31 @@ def scope(st):
         st.pack_cache = snap[2]
         st.facts_done = snap[3]
         st.str_lits = snap[4]
+        del st.decisions[snap[6]:]
+        st.prefix = snap[7]
+        st.pending = snap[8]
+
+
+def explore(st, fn):
+    """Run fn() (specification-side evaluation that may branch) once per
+    feasible decision sequence, each time in its own scope."""
+    base = [d.value for d in st.decisions]
+    work = [[]]
+    n = 0
+    while work:
+        mini = work.pop()
+        n += 1
+        if n > 200:
+            raise EngineError('specification-side evaluation explodes')
+        with scope(st):
+            st.prefix = base + mini
+            st.pending = []
+            try:
+                fn()
+            except Infeasible:
+                pass
+            for alt in st.pending:
+                work.append(alt[len(base):])
 
 
 def check_goal(st, name, goal, exact=True, kind='post', want_smt2=False, concretise=None):
@@ -478,37 +518,46 @@ class Verifier:
             self.check_path(c, ctx, st, outcome, pname, results, stats)
 
     def check_path(self, c, ctx, st, outcome, pname, results, stats):
-        # (1) some case applies (exhaustiveness on this path)
-        guards = [True if k.when is None else k.when(ctx) for k in c.cases]
-        gterms = [B(g) if not isinstance(g, bool) else z3.BoolVal(g) for g in guards]
         conc = lambda m: concretise_args(st, ctx, m)
-        results.append(check_goal(st, pname + '#some-case-applies', z3.Or(gterms), kind='exhaustive',
-                                  want_smt2=self.want_smt2, concretise=conc))
+        from .dsl import conj, disj
+        # (1) some case applies (exhaustiveness on this path)
+        def exhaustive():
+            guards = [True if k.when is None else k.when(ctx) for k in c.cases]
+            results.append(check_goal(st, pname + '#some-case-applies', disj(*guards), kind='exhaustive',
+                                      want_smt2=self.want_smt2, concretise=conc))
+        explore(st, exhaustive)
         # (2) each applicable case's outcome
-        for k, g in zip(c.cases, guards):
-            if g is False:
-                continue
-            with scope(st):
+        for k in c.cases:
+            def one(k=k):
+                g = True if k.when is None else k.when(ctx)
+                if isinstance(g, SBool):
+                    g = g.t
+                if g is False:
+                    return
                 if g is not True:
                     if not st.can(B(g)):
-                        continue
+                        return
                     st.assume(B(g))
                 stats['cases_hit'].add(k.name)
                 name = '%s#%s' % (pname, k.name)
-                if k.raises is not None:
-                    ok = outcome[0] == 'raise' and issubclass(outcome[1], k.raises)
-                    detail = 'expected raise %s, path %s' % (
-                        getattr(k.raises, '__name__', k.raises),
-                        'raises ' + outcome[1].__name__ if outcome[0] == 'raise' else 'returns')
-                    r = check_goal(st, name, ok, kind='post', concretise=conc)
-                    r.detail = r.detail + '; ' + detail if not ok else r.detail
-                    results.append(r)
-                    continue
                 if outcome[0] == 'raise':
-                    r = check_goal(st, name, False, kind='post', concretise=conc)
-                    r.detail += '; expected a return, path raises %s' % outcome[1].__name__
+                    allowed = ()
+                    if k.raises is not None:
+                        allowed = k.raises if isinstance(k.raises, tuple) else (k.raises,)
+                    elif k.may_raise:
+                        allowed = k.may_raise if isinstance(k.may_raise, tuple) else (k.may_raise,)
+                    ok = issubclass(outcome[1], tuple(allowed)) if allowed else False
+                    r = check_goal(st, name, ok, kind='post', concretise=conc)
+                    if not ok:
+                        r.detail += '; path raises %s, contract allows %s' % (
+                            outcome[1].__name__, '/'.join(a.__name__ for a in allowed) or 'no exception')
                     results.append(r)
-                    continue
+                    return
+                if k.raises is not None:
+                    r = check_goal(st, name, False, kind='post', concretise=conc)
+                    r.detail += '; expected raise %s, path returns' % getattr(k.raises, '__name__', k.raises)
+                    results.append(r)
+                    return
                 try:
                     goal, exact = True, True
                     if k.returns is not None:
@@ -518,21 +567,21 @@ class Verifier:
                         g2, e2 = k.post(ctx, outcome[1]), True
                         if isinstance(g2, tuple):
                             g2, e2 = g2
-                        from .dsl import conj
                         goal, exact = conj(goal, g2), exact and e2
                 except OutOfSubset as e:
                     results.append(Result(name, 'undecided', detail='spec side out of subset: %s' % e))
-                    continue
+                    return
                 if st.check() == z3.unsat:
                     # the guard plus the spec's own facts contradict the path: vacuous, not a proof
                     results.append(Result(name, 'undecided', detail='vacuous after evaluating the specification'))
-                    continue
+                    return
                 results.append(check_goal(st, name, goal, exact, kind='post', want_smt2=self.want_smt2,
                                           concretise=conc))
-                if c.pure and st.writes:
-                    bad = [w for w in st.writes if w[1] in ('param', 'module')]
-                    results.append(check_goal(st, name + '#modifies-nothing', not bad, kind='frame',
-                                              concretise=conc))
+                if c.pure:
+                    bad = [w for w in st.writes if len(w) > 1 and w[1] in ('param', 'module')]
+                    if bad:
+                        results.append(check_goal(st, name + '#modifies-nothing', False, kind='frame', concretise=conc))
+            explore(st, one)
 
 
 # give State an immediate-obligation facility
